@@ -2,7 +2,7 @@
    controller reservations, ramp ticks / start / range, v.onTime shape, random width, xorshift. *)
 From Sakura.Model Require Import Base Event F32 Reserve.
 From Sakura.Spec Require Import ReserveSpec.
-From Coq Require Import Lia Sorted.
+From Coq Require Import Lia Sorted Znumtheory.
 Open Scope Z_scope.
 
 (* ------------------------------------------------------------------------------------------- *)
@@ -501,6 +501,9 @@ Proof.
   destruct (Z.eq_dec i z) as [->|Hne]; [assumption|]. apply (IH (z + 1) H1). lia.
 Qed.
 
+Lemma check_range_sound_Z f n z : 0 <= n -> check_range f (Z.to_nat n) z = true -> forall i, z <= i < z + n -> f i = true.
+Proof. intros Hn H i Hi. apply (check_range_sound f (Z.to_nat n) z H). rewrite Z2Nat.id by assumption. assumption. Qed.
+
 Definition RB : Z := 65536.      (* bound of the range on which ramp_start is stated *)
 Definition is_zero (x : f32) : bool := match x with S754_zero _ => true | _ => false end.
 Definition chk_div (len : Z) : bool :=
@@ -520,12 +523,12 @@ Theorem ramp_value_start lo hi len :
   - RB <= lo <= RB -> - RB <= hi - lo <= RB -> 0 < len <= RB -> ramp_value lo hi 0 len = lo.
 Proof.
   intros Hlo Hd Hlen. unfold ramp_value, ramp_f32.
-  pose proof (check_range_sound _ _ _ chk_div_all len) as A.
-  pose proof (check_range_sound _ _ _ chk_mul_all (hi - lo)) as B.
-  pose proof (check_range_sound _ _ _ chk_add_all lo) as C.
-  assert (HR : Z.of_nat (Z.to_nat RB) = RB) by reflexivity.
-  assert (HR2 : Z.of_nat (Z.to_nat (2 * RB + 1)) = 2 * RB + 1) by reflexivity.
-  specialize (A ltac:(lia)). specialize (B ltac:(lia)). specialize (C ltac:(lia)).
+  assert (A : chk_div len = true).
+  { apply (check_range_sound_Z chk_div RB 1); [discriminate | exact chk_div_all | unfold RB in *; lia]. }
+  assert (B : chk_mul (hi - lo) = true).
+  { apply (check_range_sound_Z chk_mul (2 * RB + 1) (- RB)); [discriminate | exact chk_mul_all | unfold RB in *; lia]. }
+  assert (C : chk_add lo = true).
+  { apply (check_range_sound_Z chk_add (2 * RB + 1) (- RB)); [discriminate | exact chk_add_all | unfold RB in *; lia]. }
   unfold chk_div in A. destruct (f32_div (f32_of_Z 0) (f32_of_Z len)) as [[|]| | |]; try discriminate.
   unfold chk_mul, is_zero in B. destruct (f32_mul (f32_of_Z (hi - lo)) (S754_zero false)) as [s| | |]; try discriminate.
   unfold chk_add in C. apply andb_prop in C. destruct C as [C1 C2]. apply Z.eqb_eq in C1, C2.
@@ -541,3 +544,196 @@ Proof.
   intros Hf Hlo Hd Hlen. destruct (ticks_head freq len Hf ltac:(lia)) as [rest ->].
   cbn [map]. rewrite ramp_value_start by assumption. rewrite Z.add_0_r. eexists. reflexivity.
 Qed.
+
+(* ------------------------------------------------------------------------------------------- *)
+(* v.onTime                                                                                    *)
+(* ------------------------------------------------------------------------------------------- *)
+Definition lens_nonneg (segs : list (Z * Z * Z)) : Prop := Forall (fun s => 0 <= snd s) segs.
+
+Definition vstep (cur : Z) (st : Z * Z) (seg : Z * Z * Z) : Z * Z :=
+  let '(area, result) := st in
+  let '(low, high, len) := seg in
+  let area_to := area + len in
+  (area_to, if (area <=? cur) && (cur <? area_to) then ramp_value low high (cur - area) len else result).
+Definition loop_from (cur : Z) (segs : list (Z * Z * Z)) (st : Z * Z) : Z * Z := fold_left (vstep cur) segs st.
+Lemma loop_from_cons cur s r st : loop_from cur (s :: r) st = loop_from cur r (vstep cur st s).
+Proof. reflexivity. Qed.
+
+Lemma locate_neg : forall segs c, lens_nonneg segs -> c < 0 -> locate segs c = None.
+Proof.
+  induction segs as [|[[lo hi] len] r IH]; intros c H Hc; [reflexivity|]. inversion H as [|? ? Hl Hr]; subst. cbn [snd] in Hl.
+  cbn [locate]. destruct (0 <=? c) eqn:E; [lia|]. cbn [andb]. apply IH; [assumption | lia].
+Qed.
+
+Lemma loop_from_spec cur : forall segs area result, lens_nonneg segs ->
+  loop_from cur segs (area, result) =
+  (area + seg_total segs,
+   match locate segs (cur - area) with Some (lo, hi, len, j) => ramp_value lo hi j len | None => result end).
+Proof.
+  induction segs as [|[[lo hi] len] r IH]; intros area result H.
+  - cbn. f_equal. lia.
+  - inversion H as [|? ? Hl Hr]; subst. cbn [snd] in Hl.
+    rewrite loop_from_cons. cbn [vstep]. rewrite IH by assumption.
+    cbn [seg_total locate]. f_equal; [lia|].
+    replace (cur - (area + len)) with (cur - area - len) by lia.
+    destruct ((area <=? cur) && (cur <? area + len)) eqn:E.
+    + apply andb_prop in E. destruct E as [E1 E2]. apply Z.leb_le in E1. apply Z.ltb_lt in E2.
+      rewrite (locate_neg r (cur - area - len)) by (assumption || lia).
+      destruct (0 <=? cur - area) eqn:F1; [|lia]. destruct (cur - area <? len) eqn:F2; [|lia]. reflexivity.
+    + destruct ((0 <=? cur - area) && (cur - area <? len)) eqn:F; [|reflexivity].
+      apply andb_prop in F. destruct F as [F1 F2]. apply Z.leb_le in F1. apply Z.ltb_lt in F2.
+      apply Bool.andb_false_iff in E. destruct E as [E|E]; [apply Z.leb_gt in E | apply Z.ltb_ge in E]; lia.
+Qed.
+
+Theorem v_on_time_spec k ia def : tr_v_on_time k = Some ia -> lens_nonneg (triples ia) ->
+  let cur := tr_timepos k - tr_v_on_time_start k in
+  calc_v_on_time k def =
+    (match locate (triples ia) cur with
+     | Some (lo, hi, len, j) => let v := ramp_value lo hi j len in if v =? isize_min then def else v
+     | None => def
+     end,
+     if seg_total (triples ia) <=? cur then set_v_on_time k None (-1) else k).
+Proof.
+  intros Hk Hl cur. unfold calc_v_on_time. rewrite Hk. fold cur.
+  change (v_on_time_loop cur (triples ia)) with (loop_from cur (triples ia) (0, isize_min)).
+  rewrite loop_from_spec by assumption. rewrite Z.add_0_l, Z.sub_0_r.
+  destruct (locate (triples ia) cur) as [[[[lo hi] len] j]|]; reflexivity.
+Qed.
+
+Theorem v_on_time_none k def : tr_v_on_time k = None -> calc_v_on_time k def = (def, k).
+Proof. intros H. unfold calc_v_on_time. rewrite H. reflexivity. Qed.
+
+(* what `locate` means: the segment containing the relative time, segments laid end to end *)
+Theorem locate_spec : forall segs c lo hi len j, lens_nonneg segs ->
+  locate segs c = Some (lo, hi, len, j) ->
+  0 <= j < len /\ exists pre post, segs = pre ++ (lo, hi, len) :: post /\ c = seg_total pre + j.
+Proof.
+  induction segs as [|[[lo0 hi0] len0] r IH]; intros c lo hi len j H HL; [discriminate|].
+  inversion H as [|? ? Hl Hr]; subst. cbn [locate] in HL.
+  destruct ((0 <=? c) && (c <? len0)) eqn:E.
+  - inversion HL; subst. apply andb_prop in E. destruct E as [E1 E2]. apply Z.leb_le in E1. apply Z.ltb_lt in E2.
+    split; [lia|]. exists [], r. split; [reflexivity | cbn; lia].
+  - destruct (IH _ _ _ _ _ Hr HL) as [Hj [pre [post [-> Hc]]]]. split; [assumption|].
+    exists ((lo0, hi0, len0) :: pre), post. split; [reflexivity|]. cbn [seg_total]. lia.
+Qed.
+
+Theorem locate_outside segs c : lens_nonneg segs -> c < 0 \/ seg_total segs <= c -> locate segs c = None.
+Proof.
+  intros H [Hc|Hc]; [apply locate_neg; assumption|]. revert c Hc.
+  induction segs as [|[[lo hi] len] r IH]; intros c Hc; [reflexivity|]. inversion H as [|? ? Hl Hr]; subst. cbn [snd] in Hl.
+  cbn [seg_total] in Hc. cbn [locate].
+  assert (seg_total r >= 0).
+  { clear - Hr. induction r as [|[[a b] l] r IH]; [cbn; lia|]. inversion Hr; subst. cbn [snd] in *. cbn [seg_total]. specialize (IH H2). lia. }
+  destruct (c <? len) eqn:E; [lia|]. rewrite Bool.andb_false_r. apply IH; [assumption | lia].
+Qed.
+
+(* ------------------------------------------------------------------------------------------- *)
+(* .Random                                                                                     *)
+(* ------------------------------------------------------------------------------------------- *)
+Lemma u32_range z : 0 <= u32 z < 2 ^ 32.
+Proof. unfold u32. apply Z.mod_pos_bound. reflexivity. Qed.
+
+Lemma lxor_range a b : 0 <= a < 2 ^ 32 -> 0 <= b < 2 ^ 32 -> 0 <= Z.lxor a b < 2 ^ 32.
+Proof.
+  intros Ha Hb. assert (H0 : 0 <= Z.lxor a b) by (apply Z.lxor_nonneg; lia). split; [assumption|].
+  destruct (Z.eq_dec (Z.lxor a b) 0) as [->|Hne]; [reflexivity|].
+  pose proof (Z.log2_lxor a b ltac:(lia) ltac:(lia)) as HL.
+  assert (La : Z.log2 a < 32) by (destruct (Z.eq_dec a 0) as [->|]; [reflexivity | apply Z.log2_lt_pow2; lia]).
+  assert (Lb : Z.log2 b < 32) by (destruct (Z.eq_dec b 0) as [->|]; [reflexivity | apply Z.log2_lt_pow2; lia]).
+  apply Z.log2_lt_pow2; lia.
+Qed.
+
+Lemma shiftr_range a n : 0 <= n -> 0 <= a < 2 ^ 32 -> 0 <= Z.shiftr a n < 2 ^ 32.
+Proof.
+  intros Hn Ha. rewrite Z.shiftr_div_pow2 by assumption.
+  assert (Hp0 : 0 < 2 ^ n) by (apply Z.pow_pos_nonneg; lia). split; [apply Z.div_pos; lia|].
+  assert (Hp : 0 < 2 ^ n) by (apply Z.pow_pos_nonneg; lia).
+  apply Z.le_lt_trans with a; [|lia]. apply Z.div_le_upper_bound; [lia|]. nia.
+Qed.
+
+Theorem rand_next_range seed : 0 <= seed < 2 ^ 32 -> 0 <= rand_next seed < 2 ^ 32.
+Proof.
+  intros H. unfold rand_next.
+  assert (H1 := lxor_range _ _ H (u32_range (Z.shiftl seed 13))).
+  assert (H2 := lxor_range _ _ H1 (shiftr_range _ 17 ltac:(lia) H1)).
+  exact (lxor_range _ _ H2 (u32_range _)).
+Qed.
+
+Theorem rand_value_width seed val r : 0 <= seed < 2 ^ 32 -> 0 < r ->
+  let '(v, s') := calc_rand_value seed val r in
+  - (r / 2) <= v - val < r - r / 2 /\ Z.abs (v - val) <= r / 2 /\ s' = rand_next seed /\ 0 <= s' < 2 ^ 32.
+Proof.
+  intros Hs Hr. unfold calc_rand_value. destruct (r <=? 0) eqn:E; [lia|].
+  pose proof (rand_next_range seed Hs) as HR.
+  assert (Hrem : 0 <= Z.rem (rand_next seed) r < r) by (apply Z.rem_bound_pos; lia).
+  rewrite Z.quot_div_nonneg by lia.
+  assert (Hd : 0 <= r / 2) by (apply Z.div_pos; lia).
+  assert (Hh : 2 * (r / 2) <= r < 2 * (r / 2) + 2).
+  { pose proof (Z.div_mod r 2 ltac:(lia)). pose proof (Z.mod_pos_bound r 2 ltac:(lia)). lia. }
+  repeat split; try lia.
+Qed.
+
+Theorem rand_value_off seed val r : r <= 0 -> calc_rand_value seed val r = (val, seed).
+Proof. intros H. unfold calc_rand_value. destruct (r <=? 0) eqn:E; [reflexivity | lia]. Qed.
+
+Lemma iter_shift {A} (f : A -> A) : forall n x, Nat.iter n f (f x) = f (Nat.iter n f x).
+Proof.
+  induction n as [|n IH]; intros x; [reflexivity|].
+  change (Nat.iter (S n) f (f x)) with (f (Nat.iter n f (f x))). rewrite IH. reflexivity.
+Qed.
+
+(* the generator is a function of the seed: the i-th number is the (i+1)-fold iterate *)
+Theorem rand_seq_iter : forall n seed i, (i < n)%nat -> nth i (rand_seq seed n) 0 = Nat.iter (S i) rand_next seed.
+Proof.
+  induction n as [|n IH]; intros seed i Hi; [lia|]. cbn [rand_seq]. destruct i as [|i]; [reflexivity|].
+  cbn [nth]. rewrite IH by lia. rewrite iter_shift. reflexivity.
+Qed.
+
+(* xorshift32 never reaches 0 from a non-zero seed: each of the three steps maps only 0 to 0 *)
+
+Lemma xs_left a x : 0 <= a -> rel_prime (2 ^ 32) (2 ^ a - 1) -> 0 <= x < 2 ^ 32 ->
+  Z.lxor x (u32 (Z.shiftl x a)) = 0 -> x = 0.
+Proof.
+  intros Ha Hrp Hx H. apply Z.lxor_eq in H. unfold u32 in H. rewrite Z.shiftl_mul_pow2 in H by assumption.
+  pose proof (Z.div_mod (x * 2 ^ a) (2 ^ 32) ltac:(lia)) as HD. rewrite <- H in HD.
+  assert (Hdiv : (2 ^ 32 | (2 ^ a - 1) * x)).
+  { exists (x * 2 ^ a / 2 ^ 32). lia. }
+  apply Gauss in Hdiv; [|assumption].
+  destruct (Z.eq_dec x 0) as [|Hne]; [assumption|]. apply Z.divide_pos_le in Hdiv; lia.
+Qed.
+
+Lemma xs_right n x : 0 < n -> 0 <= x -> Z.lxor x (Z.shiftr x n) = 0 -> x = 0.
+Proof.
+  intros Hn Hx H. apply Z.lxor_eq in H. rewrite Z.shiftr_div_pow2 in H by lia.
+  destruct (Z.eq_dec x 0) as [|Hne]; [assumption|]. exfalso.
+  assert (2 <= 2 ^ n) by (change 2 with (2 ^ 1) at 1; apply Z.pow_le_mono_r; lia).
+  assert (x / 2 ^ n < x) by (apply Z.div_lt; lia). lia.
+Qed.
+
+Lemma rp13 : rel_prime (2 ^ 32) (2 ^ 13 - 1).
+Proof. apply Zgcd_1_rel_prime. reflexivity. Qed.
+Lemma rp5 : rel_prime (2 ^ 32) (2 ^ 5 - 1).
+Proof. apply Zgcd_1_rel_prime. reflexivity. Qed.
+
+Theorem rand_next_nonzero seed : 0 < seed < 2 ^ 32 -> 0 < rand_next seed < 2 ^ 32.
+Proof.
+  intros H. pose proof (rand_next_range seed ltac:(lia)) as HR.
+  destruct (Z.eq_dec (rand_next seed) 0) as [E|E]; [|lia]. exfalso. unfold rand_next in E.
+  assert (H1 := lxor_range _ _ (conj (Z.lt_le_incl _ _ (proj1 H)) (proj2 H)) (u32_range (Z.shiftl seed 13))).
+  assert (H2 := lxor_range _ _ H1 (shiftr_range _ 17 ltac:(lia) H1)).
+  apply (xs_left 5) in E; [|lia | exact rp5 | exact H2].
+  apply (xs_right 17) in E; [|lia | lia].
+  apply (xs_left 13) in E; [|lia | exact rp13 | lia]. lia.
+Qed.
+
+(* the plain v/q/t/o/l arms clear the reservation (and v also the onTime ramp), so by cancel_spec the
+   following notes take their own defaults *)
+Theorem plain_arm_cancels w v s :
+  r_list (get_res w (rs_k (exec_cmd s (RPlain w v)))) = None
+  /\ (w = WV -> tr_v_on_time (rs_k (exec_cmd s (RPlain w v))) = None).
+Proof. destruct w; split; try reflexivity; intros H; try discriminate H; reflexivity. Qed.
+
+(* a reservation arm installs the list at index 0 with the given cycle flag *)
+Theorem on_note_arm w cyc ia s :
+  get_res w (rs_k (exec_cmd s (ROnNote w cyc ia))) = mkOnres (Some ia) 0 cyc.
+Proof. destruct w; reflexivity. Qed.
